@@ -163,6 +163,21 @@ def build(tier, seed):
                              "every Unicode text of length <= 3" % (t, fmt), budget_s=300, per_path_timeout=60, replay=rp,
                              expect=reachable_classes(fmt, e, lk, "one", 3), functions=FUNCS + ("cutplace.interface.Cid.read",),
                              stubs=("type hook validated_value replaced by a recorder", "S-FMT")))
+    # the guards are consulted for every cell of every row (not only the first time a value is seen): consecutive
+    # rows through the real Reader, each cell judged by the guard oracle of its field (machinery shared with C04)
+    from props import c04
+    for keys, widths, sym in ((("t12",), (1, 1), ((0, 0), (1, 0))), (("t12", "t01"), (2, 2, 2), ((0, 0), (1, 0), (1, 1), (2, 1))),
+                              (("ch", "t1"), (2, 2), ((0, 0), (0, 1), (1, 0), (1, 1)))):
+        mk, rp4 = c04.make(keys, widths, set(sym), None)
+
+        def rp(args, rp4=rp4):
+            bad, detail, _ = rp4(args)
+            return bad, detail, "field-guards-every-row"
+
+        queries.append(Query("C03/rows/%s/w=%s" % ("+".join(keys), ",".join(map(str, widths))), "guards-every-row", mk,
+                             "fields %s, %d consecutive rows through Reader.rows(on_error='yield'), %d symbolic cells (every "
+                             "Unicode text of length <= 2), header 0..2" % ("+".join(keys), len(widths), len(sym)),
+                             budget_s=300, per_path_timeout=60, replay=rp, functions=FUNCS + c04.FUNCS, stubs=c04.STUBS))
     return dict(queries=queries, warm=("strip",),
                 assumptions=["fixed-width cells that start or end (after blank-stripping) with white space other than "
                              "the blank are outside the claim: the property speaks of blanks, the code strips all white "
